@@ -15,6 +15,7 @@ from __future__ import annotations
 import ast
 from typing import Any, Dict, List, Optional, Set
 
+from engine.srcmatch import U
 from engine.effects import borrowed_names, mutations
 from engine.fold import Folder
 from engine.model import AnalysisError, Program, dotted, walk_no_nested
@@ -82,8 +83,8 @@ def run(ctx: Any, prog: Program) -> None:
             if root(c.func.value) in b and c.func.attr in SINKS:
                 continue  # would already be a template mutation (reported above)
             n_sinks += 1
-            ctx.check('C17.N1', is_copy(c.args[0]), ins, c, f'`{ast.unparse(c)[:70]}` hands an object to the target map that is not the result of .copy()/Output.combine(): '
-                      'template objects would be shared with (and later edited through) the map', text=f'sink {c.func.attr}({ast.unparse(c.args[0])[:30]})')
+            ctx.check('C17.N1', is_copy(c.args[0]), ins, c, f'`{U(c)[:70]}` hands an object to the target map that is not the result of .copy()/Output.combine(): '
+                      'template objects would be shared with (and later edited through) the map', text=f'sink {c.func.attr}({U(c.args[0])[:30]})')
     if n_sinks < 4:
         raise AnalysisError(f'collapse_one: only {n_sinks} sinks into the target map found; expected add_brush/add_ent/visgroup append/add_out')
     # the cached template is what is passed in: collapse_all passes file_cache entries
@@ -100,9 +101,9 @@ def run(ctx: Any, prog: Program) -> None:
             return not bool_eval(e.operand, var, env, depth)
         if isinstance(e, ast.Attribute) and dotted(e.value) == var and e.attr in env:
             return env[e.attr]
-        if isinstance(e, ast.Compare) and ast.unparse(e) in ('visgroup is False', 'visgroup is not False'):
+        if isinstance(e, ast.Compare) and U(e) in ('visgroup is False', 'visgroup is not False'):
             v = env['visgroup_is_false']
-            return v if ast.unparse(e) == 'visgroup is False' else not v
+            return v if U(e) == 'visgroup is False' else not v
         if isinstance(e, ast.Call) and isinstance(e.func, ast.Name) and ins.has_func(e.func.id) and len(e.args) == 1 and dotted(e.args[0]) == var:
             hf = ins.func(e.func.id)
             rets = [r for r in walk_no_nested(hf) if isinstance(r, ast.Return) and r.value is not None]
@@ -114,12 +115,12 @@ def run(ctx: Any, prog: Program) -> None:
             defs_ = [a_ for a_ in walk_no_nested(co) if isinstance(a_, ast.Assign) and len(a_.targets) == 1 and isinstance(a_.targets[0], ast.Name) and a_.targets[0].id == e.id]
             if len(defs_) == 1 and defs_[0] in co.body:
                 return bool_eval(defs_[0].value, var, env, depth + 1)
-        raise AnalysisError(f'collapse_one: visibility predicate contains `{ast.unparse(e)}` which is not modelled')
-    for lp in [n for n in walk_no_nested(co) if isinstance(n, ast.For) and ast.unparse(n.iter) in ('file.vmf.brushes', 'file.vmf.entities')]:
+        raise AnalysisError(f'collapse_one: visibility predicate contains `{U(e)}` which is not modelled')
+    for lp in [n for n in walk_no_nested(co) if isinstance(n, ast.For) and U(n.iter) in ('file.vmf.brushes', 'file.vmf.entities')]:
         var = lp.target.id
         first = lp.body[0]
         if not (isinstance(first, ast.If) and len(first.body) == 1 and isinstance(first.body[0], ast.Continue)):
-            raise AnalysisError(f'collapse_one: loop over {ast.unparse(lp.iter)} does not start with a skip test')
+            raise AnalysisError(f'collapse_one: loop over {U(lp.iter)} does not start with a skip test')
         for hidden, shown, auto in itertools.product((False, True), repeat=3):
             env = {'hidden': hidden, 'vis_shown': shown, 'vis_auto_shown': auto, 'visgroup_is_false': True}
             skipped = bool_eval(first.test, var, env)
@@ -129,14 +130,14 @@ def run(ctx: Any, prog: Program) -> None:
                 want = False
             else:
                 continue      # auto-visgroup hidden only: not specified
-            ctx.check('C17.N5', skipped == want, ins, first, f'{ast.unparse(lp.iter)}: an object with hidden={hidden}, vis_shown={shown}, vis_auto_shown={auto} is '
+            ctx.check('C17.N5', skipped == want, ins, first, f'{U(lp.iter)}: an object with hidden={hidden}, vis_shown={shown}, vis_auto_shown={auto} is '
                       f'{"skipped" if skipped else "collapsed"} but must be {"skipped" if want else "collapsed"} (visible = not hidden and shown in its visgroups)',
-                      text=f'{ast.unparse(lp.iter)} hidden={hidden} shown={shown} auto={auto}')
+                      text=f'{U(lp.iter)} hidden={hidden} shown={shown} auto={auto}')
     # brushes tied to an entity are not filtered by collapse_one: their own hidden state has to survive Entity.copy, whatever the entity-level
     # keep_vis says (keep_vis=False only strips the entity's visgroup membership)
     ec = vm.func('Entity.copy')
     ent_filters_solids = any(isinstance(n, ast.Attribute) and n.attr == 'solids' and isinstance(n.ctx, (ast.Store, ast.Del)) for n in ast.walk(co))
-    for lp_ in [n for n in ast.walk(co) if isinstance(n, ast.For) and '.solids' in ast.unparse(n.iter)]:
+    for lp_ in [n for n in ast.walk(co) if isinstance(n, ast.For) and '.solids' in U(n.iter)]:
         svars = {n.id for n in ast.walk(lp_.target) if isinstance(n, ast.Name)}
         ent_filters_solids |= any(isinstance(n, ast.Attribute) and n.attr in ('hidden', 'vis_shown') and isinstance(n.value, ast.Name) and n.value.id in svars
                                   for st in lp_.body for n in ast.walk(st))
@@ -150,9 +151,9 @@ def run(ctx: Any, prog: Program) -> None:
             kv_.append(c.args[2])
         strips = [v for v in kv_ if not (isinstance(v, ast.Constant) and v.value is True)]
         named = [v for v in strips if isinstance(v, ast.Constant) or (isinstance(v, ast.Name) and v.id in {a.arg for a in ec.args.args + ec.args.kwonlyargs})]
-        ctx.shape('C17.N5', len(named) == len(strips), vm, c, f'keep_vis argument `{ast.unparse(strips[0]) if strips else ""}` of the per-solid copy is not a constant or a parameter',
+        ctx.shape('C17.N5', len(named) == len(strips), vm, c, f'keep_vis argument `{U(strips[0]) if strips else ""}` of the per-solid copy is not a constant or a parameter',
                   func='Entity.copy', text='solid copies keep their hidden state')
-        ctx.check('C17.N5', not strips, vm, c, f'Entity.copy passes keep_vis={ast.unparse(strips[0]) if strips else ""} to the copies of its solids: collapse_one copies visible entities with keep_vis=False and '
+        ctx.check('C17.N5', not strips, vm, c, f'Entity.copy passes keep_vis={U(strips[0]) if strips else ""} to the copies of its solids: collapse_one copies visible entities with keep_vis=False and '
                   'does not look at their solids, so an individually hidden brush of a visible brush entity would be added to the map as a visible one', func='Entity.copy', text='solid copies keep their hidden state')
     # ---- N2 --------------------------------------------------------------------------------------------
     ca = ins.func('collapse_all')
@@ -183,22 +184,22 @@ def run(ctx: Any, prog: Program) -> None:
                   'each func_instance entity must be removed unconditionally before collapse_one is called for it (otherwise it is collapsed again on the next pass)',
                   text='instance removed before collapse')
         # the work list is re-read from by_class['func_instance'] each pass and the function returns when it is empty
-        src = ast.unparse(outer[0])
+        src = U(outer[0])
         byc = [n for n in ast.walk(outer[0]) if isinstance(n, ast.Subscript) and (dotted(n.value) or '').endswith('by_class')]
         ctx.shape('C17.N2', all(isinstance(n.slice, ast.Constant) and n.slice.value == 'func_instance' for n in byc), ins, outer[0], "the class index is read under the literal 'func_instance'", text='worklist re-read, early return')
         ok = bool(byc) and any(isinstance(n, ast.Return) for n in ast.walk(outer[0]))
         ctx.check('C17.N2', ok, ins, outer[0], 'each pass must re-read the remaining func_instance entities and return when none are left', text='worklist re-read, early return')
         # every return inside the pass loop is taken only when the work list just read from by_class['func_instance'] is empty: instances
         # added by this pass (nested instances of templates, including cached ones) are otherwise left uncollapsed
-        work = {t.id for st in outer[0].body if isinstance(st, ast.Assign) and "by_class['func_instance']" in ast.unparse(st.value) for t in st.targets if isinstance(t, ast.Name)}
+        work = {t.id for st in outer[0].body if isinstance(st, ast.Assign) and "by_class['func_instance']" in U(st.value) for t in st.targets if isinstance(t, ast.Name)}
         for r in [n for n in ast.walk(outer[0]) if isinstance(n, ast.Return)]:
             par = ins.parents.get(r)
             guarded = False
             if isinstance(par, ast.If) and r in par.body and ins.parents.get(par) is outer[0]:
                 t = par.test
-                if isinstance(t, ast.UnaryOp) and isinstance(t.op, ast.Not) and (dotted(t.operand) in work or "by_class['func_instance']" in ast.unparse(t.operand)):
+                if isinstance(t, ast.UnaryOp) and isinstance(t.op, ast.Not) and (dotted(t.operand) in work or "by_class['func_instance']" in U(t.operand)):
                     guarded = True
-                if isinstance(t, ast.Compare) and len(t.ops) == 1 and isinstance(t.ops[0], ast.Eq) and ast.unparse(t.left) in {f'len({w})' for w in work} and ast.unparse(t.comparators[0]) == '0':
+                if isinstance(t, ast.Compare) and len(t.ops) == 1 and isinstance(t.ops[0], ast.Eq) and U(t.left) in {f'len({w})' for w in work} and U(t.comparators[0]) == '0':
                     guarded = True
             ctx.check('C17.N2', guarded, ins, r, 'collapse_all returns from inside the pass loop although func_instance entities may remain (the only sound early exit is an empty '
                       "by_class['func_instance'] at the start of a pass); instances nested in a template would stay uncollapsed", text='early return only on empty work list')
@@ -212,7 +213,7 @@ def run(ctx: Any, prog: Program) -> None:
             cache = dotted(cache_stores[0].value)
             uses = [n for n in ast.walk(outer[0]) if isinstance(n, ast.Subscript) and dotted(n.value) == cache]
             ok = all(isinstance(n.slice, ast.Attribute) and n.slice.attr == 'filename' and dotted(n.slice.value) in inst_vars for n in uses)
-            ctx.check('C17.N2', ok, ins, uses[0], f'parsed templates must be looked up and cached under the file name of the instance being collapsed; found keys {sorted({ast.unparse(n.slice) for n in uses})}', text='template cache key')
+            ctx.check('C17.N2', ok, ins, uses[0], f'parsed templates must be looked up and cached under the file name of the instance being collapsed; found keys {sorted({U(n.slice) for n in uses})}', text='template cache key')
     # ---- N3 --------------------------------------------------------------------------------------------
     fk = ins.func('Instance.fixup_key')
 
@@ -242,7 +243,7 @@ def run(ctx: Any, prog: Program) -> None:
     arms = {}
     for n in walk_no_nested(fk):
         if isinstance(n, ast.If):
-            t = ast.unparse(n.test)
+            t = U(n.test)
             arms[t] = n
     want = {'ValueTypes.VEC ': 'rot+pos', 'ValueTypes.ANGLES': 'rot', 'ValueTypes.EXT_VEC_DIRECTION': 'rot', 'ValueTypes.VEC_AXIS': 'rot+pos'}
     for frag, expect in want.items():
@@ -258,7 +259,7 @@ def run(ctx: Any, prog: Program) -> None:
     # collapse_one: origin keyvalue and angles
     got_origin = None
     for n in walk_no_nested(co):
-        if isinstance(n, ast.Assign) and ast.unparse(n.targets[0]) == "new_ent['origin']":
+        if isinstance(n, ast.Assign) and U(n.targets[0]) == "new_ent['origin']":
             got_origin = shape(n.value, 'orient', 'origin')
     ctx.check('C17.N3', got_origin == 'rot+pos', ins, co, f'collapse_one must set origin = value @ orient + origin; found shape {got_origin}', text='collapse_one origin')
     ok = any(isinstance(n, ast.AugAssign) and isinstance(n.op, ast.MatMult) and dotted(n.target) == 'angles' and dotted(n.value) == 'orient' for n in walk_no_nested(co))
@@ -304,7 +305,7 @@ def run(ctx: Any, prog: Program) -> None:
     need = _moved_by(side_loc, side_loc.args.args[1].arg)
     ctx.shape('C17.N3', {'planes', 'uaxis', 'vaxis', 'disp_pos'} <= need, vm, side_loc, f'Side.localise shifts planes, both texture axes and the displacement start position by the origin (found {sorted(need)})', text='Side.localise shifted fields')
     brush_vars = {t.id for n in ast.walk(co) if isinstance(n, ast.Assign) and isinstance(n.value, ast.Call) and isinstance(n.value.func, ast.Attribute) and n.value.func.attr == 'copy' for t in n.targets if isinstance(t, ast.Name)}
-    brush_vars |= {e.id for n in ast.walk(co) if isinstance(n, ast.For) and 'solids' in ast.unparse(n.iter) for e in ast.walk(n.target) if isinstance(e, ast.Name)}
+    brush_vars |= {e.id for n in ast.walk(co) if isinstance(n, ast.For) and 'solids' in U(n.iter) for e in ast.walk(n.target) if isinstance(e, ast.Name)}
     for c in walk_no_nested(co):
         if isinstance(c, ast.Call) and isinstance(c.func, ast.Attribute) and isinstance(c.func.value, ast.Name) and c.func.value.id in brush_vars and c.func.attr not in ('localise', 'copy', 'add', 'append') \
                 and vm.has_func('Solid.' + c.func.attr) and vm.has_func('Side.' + c.func.attr) and any(dotted(a) == 'origin' for a in c.args):
@@ -325,13 +326,13 @@ def run(ctx: Any, prog: Program) -> None:
             add_line = n.lineno
     ctx.check('C17.N3', rot_line is not None and add_line is not None and rot_line < add_line, mt, vl, 'Vec.localise must rotate first and then add the origin', text='Vec.localise order')
     sl = vm.func('Side.localise')
-    src = ast.unparse(sl)
+    src = U(sl)
     # what happens to each transformed member: (attribute, operation)
     ops: Dict[str, Set[str]] = {}
     for n in ast.walk(sl):
         if isinstance(n, ast.Call) and isinstance(n.func, ast.Attribute) and n.func.attr == 'localise':
             tgt = n.func.value
-            nm = tgt.attr if isinstance(tgt, ast.Attribute) else ('planes' if isinstance(tgt, ast.Name) else ast.unparse(tgt))
+            nm = tgt.attr if isinstance(tgt, ast.Attribute) else ('planes' if isinstance(tgt, ast.Name) else U(tgt))
             ops.setdefault(nm, set()).add('localise(' + ', '.join(dotted(a) or '?' for a in n.args) + ')')
         if isinstance(n, ast.AugAssign) and isinstance(n.target, ast.Attribute):
             ops.setdefault(n.target.attr, set()).add({ast.MatMult: '@=', ast.Add: '+=', ast.Sub: '-='}.get(type(n.op), '?=') + ' ' + (dotted(n.value) or '?'))
@@ -345,8 +346,8 @@ def run(ctx: Any, prog: Program) -> None:
         else:
             ctx.check('C17.N3', got == {want}, vm, sl, f'Side.localise applies {sorted(got)} to {nm}; it must be transformed {kind}: `{want}`', text=f'Side.localise {nm}')
     ul = vm.func('UVAxis.localise')
-    src = ast.unparse(ul)
-    rot_vars = {t.id for n in walk_no_nested(ul) if isinstance(n, ast.Assign) and isinstance(n.value, ast.BinOp) and isinstance(n.value.op, ast.MatMult) and 'self.vec()' in ast.unparse(n.value.left)
+    src = U(ul)
+    rot_vars = {t.id for n in walk_no_nested(ul) if isinstance(n, ast.Assign) and isinstance(n.value, ast.BinOp) and isinstance(n.value.op, ast.MatMult) and 'self.vec()' in U(n.value.left)
                 and dotted(n.value.right) == 'angles' for t in n.targets if isinstance(t, ast.Name)}
     ctors = [c for c in walk_no_nested(ul) if isinstance(c, ast.Call) and dotted(c.func) == 'UVAxis' and len(c.args) >= 4]
     ctx.shape('C17.N3', len(rot_vars) == 1 and len(ctors) >= 1, vm, ul, 'UVAxis.localise: `<v> = self.vec() @ angles` and `UVAxis(x, y, z, offset, scale)` found', text='UVAxis.localise')
@@ -365,7 +366,7 @@ def run(ctx: Any, prog: Program) -> None:
                 return False
             t = par.test
             in_body = any(node is b for b in par.body)
-            ts = ast.unparse(t)
+            ts = U(t)
             if in_body:
                 return ts in ('self.scale == 0', 'self.scale == 0.0', 'not self.scale')
             return ts in ('self.scale != 0', 'self.scale != 0.0', 'self.scale')
@@ -379,12 +380,12 @@ def run(ctx: Any, prog: Program) -> None:
                 loc_origin = {t.id for n in walk_no_nested(ul) if isinstance(n, ast.Assign) and any(isinstance(x, ast.Name) and x.id == 'origin' for x in ast.walk(n.value)) for t in n.targets if isinstance(t, ast.Name)}
                 uses_origin = any(isinstance(x, ast.Name) and (x.id == 'origin' or x.id in loc_origin) for x in ast.walk(v))
                 if uses_origin and not is_shift(v):
-                    ctx.shape('C17.N3', False, vm, v, f'offset formula `{ast.unparse(v)[:70]}` is not the enumerated `self.offset - <axis>.dot(origin) / self.scale`', text='UVAxis.localise offset shift')
+                    ctx.shape('C17.N3', False, vm, v, f'offset formula `{U(v)[:70]}` is not the enumerated `self.offset - <axis>.dot(origin) / self.scale`', text='UVAxis.localise offset shift')
                     continue
                 ok = is_shift(v) or zero_scale_only(st)
-                ctx.check('C17.N3', ok, vm, v, f'UVAxis.localise: the new offset is `{ast.unparse(v)[:70]}`' + (f' under `{ast.unparse(vm.parents[st].test)}`' if isinstance(vm.parents.get(st), ast.If) else '')
+                ctx.check('C17.N3', ok, vm, v, f'UVAxis.localise: the new offset is `{U(v)[:70]}`' + (f' under `{U(vm.parents[st].test)}`' if isinstance(vm.parents.get(st), ast.If) else '')
                           + '; texture lock needs offset - (rotated axis . origin) / scale for every non-zero scale (negative scales are mirrored textures, not errors)', text='UVAxis.localise offset shift')
-            ctx.check('C17.N3', ast.unparse(c.args[0]) == f'{rv}.x' and ast.unparse(c.args[1]) == f'{rv}.y' and ast.unparse(c.args[2]) == f'{rv}.z' and len(c.args) >= 5 and dotted(c.args[4]) == 'self.scale', vm, c,
+            ctx.check('C17.N3', U(c.args[0]) == f'{rv}.x' and U(c.args[1]) == f'{rv}.y' and U(c.args[2]) == f'{rv}.z' and len(c.args) >= 5 and dotted(c.args[4]) == 'self.scale', vm, c,
                       'the localised UVAxis must take the rotated axis and keep the scale', text='UVAxis.localise axis and scale')
     so = vm.func('Solid.localise')
     ok = any(isinstance(c, ast.Call) and isinstance(c.func, ast.Attribute) and c.func.attr == 'localise' and [dotted(a) for a in c.args] == ['origin', 'angles'] for c in walk_no_nested(so))
@@ -396,7 +397,7 @@ def run(ctx: Any, prog: Program) -> None:
         if isinstance(c, ast.Call) and isinstance(c.func, ast.Attribute) and c.func.attr == 'substitute':
             n_sub += 1
             inner = [x for a in c.args for x in ast.walk(a) if isinstance(x, ast.Call) and isinstance(x.func, ast.Attribute) and x.func.attr in ('fixup_name', 'fixup_key')]
-            ctx.check('C17.N4', not inner, ins, c, f'`{ast.unparse(c)[:90]}` expands $variables in a name that already went through {inner[0].func.attr if inner else "fixup_name"}(): whether the name is global (@), '
+            ctx.check('C17.N4', not inner, ins, c, f'`{U(c)[:90]}` expands $variables in a name that already went through {inner[0].func.attr if inner else "fixup_name"}(): whether the name is global (@), '
                       'special (!) or empty is then decided on the literal `$var` text, so `$target` = `@door` becomes `inst-@door`', func='collapse_one', text='substitute before the naming style')
     for a in ast.walk(co):
         if isinstance(a, ast.Assign) and any(isinstance(t, ast.Attribute) and t.attr == 'target' for t in a.targets):
@@ -404,7 +405,7 @@ def run(ctx: Any, prog: Program) -> None:
             outer_is_name = isinstance(v, ast.Call) and isinstance(v.func, ast.Attribute) and v.func.attr == 'fixup_name'
             has_sub = any(isinstance(x, ast.Call) and isinstance(x.func, ast.Attribute) and x.func.attr == 'substitute' for x in ast.walk(v))
             if has_sub or outer_is_name:
-                ctx.check('C17.N4', outer_is_name and has_sub, ins, a, f'output targets must be `fixup_name(substitute(target))`; found `{ast.unparse(v)[:80]}`', func='collapse_one', text='output target: substitute, then style')
+                ctx.check('C17.N4', outer_is_name and has_sub, ins, a, f'output targets must be `fixup_name(substitute(target))`; found `{U(v)[:80]}`', func='collapse_one', text='output target: substitute, then style')
     if n_sub < 2:
         raise AnalysisError(f'collapse_one: only {n_sub} substitute() calls found (keyvalues and output targets confirmed by hand)')
     # ---- N4 --------------------------------------------------------------------------------------------
@@ -447,7 +448,7 @@ def n6_substitute(ctx: Any, vm: Any) -> None:
     if len(comp) != 1:
         raise AnalysisError('EntityFixup.substitute: re.compile(f-string) not found')
     js = comp[0].args[0]
-    src = ast.unparse(fn)
+    src = U(fn)
     # what the joined list contains besides the escaped keys (an appended default pattern)
     appended = [c.args[0].value for c in ast.walk(fn) if isinstance(c, ast.Call) and isinstance(c.func, ast.Attribute) and c.func.attr == 'append' and dotted(c.func.value) == 'sections' and c.args and isinstance(c.args[0], ast.Constant)]
     for label, keys in (('empty table', []), ('one variable', ['x']), ('prefix pair', ['ab', 'a'])):
@@ -460,7 +461,7 @@ def n6_substitute(ctx: Any, vm: Any) -> None:
                 if isinstance(inner, ast.Call) and isinstance(inner.func, ast.Attribute) and inner.func.attr == 'join' and isinstance(inner.func.value, ast.Constant) and dotted(inner.args[0]) == 'sections':
                     parts.append(inner.func.value.value.join(list(keys) + appended))
                 else:
-                    raise AnalysisError(f'EntityFixup.substitute: pattern piece `{ast.unparse(inner)}` not recognised')
+                    raise AnalysisError(f'EntityFixup.substitute: pattern piece `{U(inner)}` not recognised')
         pattern = ''.join(parts)
         try:
             tree = sre.parse(pattern)
@@ -494,7 +495,7 @@ def n6_substitute(ctx: Any, vm: Any) -> None:
             ctx.shape('C17.N6', False, vm, r_, 'unguarded return of the untouched text', func='EntityFixup.substitute', text='early out only without $')
             continue
         n_early += 1
-        t_ = ast.unparse(par_.test)
+        t_ = U(par_.test)
         disj_ = par_.test.values if isinstance(par_.test, ast.BoolOp) and isinstance(par_.test.op, ast.Or) else [par_.test]
         def no_dollar(d):
             if isinstance(d, ast.Compare) and len(d.ops) == 1 and isinstance(d.ops[0], ast.NotIn):
